@@ -112,7 +112,9 @@ def project(ep, client):
 
 
 GATE_CLIENTS = ["10.0.0.1", "10.0.0.2", "10.0.0.11", "2001:db8::1", "2001:db8::2", "2001:db8::1:1", "::1", "::2",
-                "fe80::1", "203.0.113.7", "198.51.100.200", "1.2.3.4"]
+                "fe80::1", "203.0.113.7", "198.51.100.200", "1.2.3.4",
+                # identities that are not address literals (what a proxy in front may put there)
+                "client-a.corp.example", "client-b.corp.example", "unknown", "198.51.100.7:51234", "_hidden8f2", "2001:DB8::1"]
 
 
 def gate_episode(rng):
@@ -218,6 +220,11 @@ def check(ctx):
     gate_eps = [gate_episode(ctx.rng) for _ in range(300 if ctx.thorough() else 60)]
     dg.check(gate_eps, oracle=gate_oracle, label="gate")
     ctx.cov["gate_episodes"] = len(gate_eps)
+    # the limiter the balancer builds runs with the configured numbers (seconds become that many seconds)
+    from . import c18
+    wire = [c18.wireall_episode(ctx.rng) for _ in range(60 if ctx.thorough() else 15)]
+    dg.check(wire, oracle=c18.wireall_oracle, label="rl-wiring")
+    ctx.cov["wiring_episodes"] = len(wire)
     # coverage accounting
     nontriv = set()
     kinds = {"allow": 0, "cleanup": 0}
